@@ -18,7 +18,7 @@ RULE = ("each run: generated well-formed input (sweep first, then sampling; knob
         "distinct (type, cc, flag, bytes)")
 REAL = common.REAL_DECODER + ["tpmstream.common.object", "tpmstream.common.canonical", "tpmstream.io.binary.unmarshal"]
 ASSUMPTIONS = ["== on objects / events is the library's own equality, exactly as the property states"]
-TIERS = {"quick": {"runs": 40000, "budget": 150}, "thorough": {"runs": 500000, "budget": 780}}
+TIERS = {"quick": {"runs": 56000, "budget": 150}, "thorough": {"runs": 500000, "budget": 780}}
 
 
 def make_case(i, rng, tier):
